@@ -12,6 +12,7 @@ import Mahotas.Proofs.C17Energy
 import Mahotas.Proofs.C17Odd
 import Mahotas.Proofs.C17Mem
 import Mahotas.Proofs.C17Center
+import Mahotas.Proofs.C17Round
 import Mathlib.Algebra.Order.Ring.Rat
 namespace Mahotas.C17
 open Mahotas
@@ -809,3 +810,29 @@ example : (List.range 6).map (fun (a : Nat) => Mem.wrapperBody .ihaar true ([] :
       (Mem.wrapperBody .haar true [] (Mem.View.contig 2 3)
         (fun p => ([1, 4, 9, 16, 25, 36] : List ℚ).getD p.toNat 0)) (a : Int)) = [1, 4, 0, 16, 25, 0] := by
   decide +kernel
+
+/-- **C17 (rounding of the analysis kernel, standard model of floating-point arithmetic).** Let `fl` be ANY rounding
+function on an ordered field with `|fl t − t| ≤ u·|t|` for every `t` (IEEE double: `u = 2⁻⁵³`, barring overflow and
+underflow — that is the hypothesis, Lean's `Float` itself is opaque). Run the model's own loop `waveletRow` — same
+taps, same order of accumulation, starting from `T()` — in the arithmetic `Rnd K fl` in which every `+` and `×` is
+followed by `fl` (coefficients and samples enter exactly: float32 coefficients and double samples are doubles). Then
+every sample of one row of `daubechies`, low-pass and high-pass alike, every coefficient list, every length:
+`|rounded − exact| ≤ ((1+u)^(n+1) − 1) · Σ_ci |c_ci · f(2x+ci)|`, `n = ncoeffs` — about `(n+1)·u` times the sum of
+the absolute products, the classical dot-product bound, for THIS order of operations. (The synthesis kernel and the
+2-D composition are not covered; see the report.) -/
+theorem C17_wavelet_row_rounding {K : Type} [Field K] [LinearOrder K] [IsStrictOrderedRing K] (fl : K → K) (u : K)
+    (hu : 0 ≤ u) (hfl : ∀ t, |fl t - t| ≤ u * |t|) (cs : List K) (N : Nat) (f : Nat → K) (x : Nat) :
+    |(waveletRow (cs.map (fun c => (⟨c⟩ : Rnd K fl))) N (fun i => (⟨f i⟩ : Rnd K fl)) x).val - waveletRow cs N f x|
+      ≤ ((1 + u) ^ (cs.length + 1) - 1) * rowAbs cs N f x :=
+  waveletRow_round fl u hu hfl cs N f x
+
+/-- non-vacuity: a rounding function that is not the identity (`fl t = 9t/8`, `u = 1/8`) satisfies the hypothesis; the
+exact four-tap filter on a row of four samples -/
+example : |(waveletRow (([3 / 5, 6 / 5, 2 / 5, -1 / 5] : List ℚ).map (fun c => (⟨c⟩ : Rnd ℚ (fun t => t * (9 / 8)))))
+      4 (fun i => (⟨(i : ℚ) + 1⟩ : Rnd ℚ (fun t => t * (9 / 8)))) 0).val
+      - waveletRow ([3 / 5, 6 / 5, 2 / 5, -1 / 5] : List ℚ) 4 (fun i => (i : ℚ) + 1) 0|
+    ≤ ((1 + 1 / 8) ^ (4 + 1) - 1) * rowAbs ([3 / 5, 6 / 5, 2 / 5, -1 / 5] : List ℚ) 4 (fun i => (i : ℚ) + 1) 0 :=
+  C17_wavelet_row_rounding (fun t => t * (9 / 8)) (1 / 8) (by norm_num) (by
+    intro t
+    rw [show t * (9 / 8) - t = 1 / 8 * t by ring, abs_mul]
+    norm_num) _ 4 _ 0
